@@ -110,6 +110,11 @@ pub fn cb_rec(cb: &Value, h: u64, wd: u64) -> Option<Value> {
     Some(c)
 }
 
+fn first_steps_call(inp: &Value) -> Value {
+    let ab = build_arrival(&inp["a"]);
+    json!(ab.steps_iter().take(8).map(u64::from).collect::<Vec<u64>>())
+}
+
 pub fn gen_supply(rng: &mut rand::rngs::StdRng, pmax: u64) -> Value {
     let p = rng.gen_range(1..=pmax);
     let q = rng.gen_range(1..=p);
@@ -140,7 +145,7 @@ fn tagged(mut inp: Value) -> Value {
 
 pub fn run(ctx: &mut Ctx) {
     let only: Option<Vec<usize>> = ctx.arg("--kinds").map(|p| p.split(',').map(|x| x.parse().unwrap()).collect());
-    let n = if ctx.thorough { 60000 } else { 9000 };
+    let n = if ctx.thorough { 90000 } else { 15000 };
     let (tmax, limmax, pmax) = if ctx.thorough { (24, 120, 10) } else { (10, 50, 6) };
     let wd = ctx.watchdog_ms;
     for i in 0..n {
@@ -177,13 +182,23 @@ pub fn run(ctx: &mut Ctx) {
                 }
             }
             3 => {
-                // chain-level RBFs on the source's curve: prefix + last = full (scalar costs)
+                // a chain: prefix + last = full.  Half of the time the whole chain sits on the source's curve
+                // (scalar costs, as the crate's tests do); otherwise the last callback has its own (jittered)
+                // curve and the full chain is the aggregate of prefix and last
                 let a = gen::arrival(&mut ctx.rng, 1, &o);
                 let cl = ctx.rng.gen_range(1..=3u64);
                 let cp = ctx.rng.gen_range(1..=4u64);
-                let last = json!({"k": "rbf", "a": a, "c": {"k": "scalar", "c": cl}});
-                let prefix = json!({"k": "rbf", "a": a, "c": {"k": "scalar", "c": cp}});
-                let full = json!({"k": "rbf", "a": a, "c": {"k": "scalar", "c": cl + cp}});
+                let (last, prefix, full) = if i % 12 < 6 {
+                    (json!({"k": "rbf", "a": a, "c": {"k": "scalar", "c": cl}}),
+                     json!({"k": "rbf", "a": a, "c": {"k": "scalar", "c": cp}}),
+                     json!({"k": "rbf", "a": a, "c": {"k": "scalar", "c": cl + cp}}))
+                } else {
+                    let la = json!({"k": "jit", "J": ctx.rng.gen_range(1..=tmax), "of": a});
+                    let l = json!({"k": "rbf", "a": la, "c": {"k": "scalar", "c": cl}});
+                    let p = json!({"k": "rbf", "a": a, "c": {"k": "scalar", "c": cp}});
+                    let f = json!({"k": "agg", "of": [p.clone(), l.clone()]});
+                    (l, p, f)
+                };
                 let others = demand_tree(&mut ctx.rng, 1, &o, 3);
                 if let (Some(l), Some(p), Some(f), Some(ot)) =
                     (demand_rec(&last, h, wd), demand_rec(&prefix, h, wd), demand_rec(&full, h, wd), demand_rec(&others, h, wd))
@@ -201,9 +216,21 @@ pub fn run(ctx: &mut Ctx) {
                     let sc = ctx.rng.gen_bool(0.6);
                     let c = gen::cost(&mut ctx.rng, 3, sc);
                     let c1 = crate::drivers::rta::first_cost(&c);
-                    let r = c1 + ctx.rng.gen_range(0..=rmax);
+                    let a = gen::arrival(&mut ctx.rng, 1, &o);
+                    let mut r = c1 + ctx.rng.gen_range(0..=rmax);
+                    if ctx.rng.gen_bool(0.5) {
+                        // an assumed bound that sits exactly on a step of the callback's own arrival curve, or one below
+                        let st = guarded(&json!({"a": a}), wd, first_steps_call);
+                        if let Some(v) = st.as_array() {
+                            let cands: Vec<u64> = v.iter().filter_map(|x| x.as_u64()).filter(|x| *x >= c1 && *x <= c1 + 3 * rmax).collect();
+                            if !cands.is_empty() {
+                                r = cands[ctx.rng.gen_range(0..cands.len())] - if ctx.rng.gen_bool(0.3) && cands[0] > c1 { 1 } else { 0 };
+                                r = r.max(c1);
+                            }
+                        }
+                    }
                     let cb = json!({"t": t, "p": ctx.rng.gen_range(0..=3) as i64 + (j as i64 % 2), "R": r,
-                                    "a": gen::arrival(&mut ctx.rng, 1, &o), "c": c});
+                                    "a": a, "c": c});
                     match cb_rec(&cb, lim + r + rmax + 4, wd) {
                         Some(c) => wl.push(c),
                         None => ok = false,
